@@ -256,3 +256,127 @@ func (x *Pointer[T]) Store(p *T) {
 	vsched.AtomicSync(unsafe.Pointer(x))
 	x.p = p
 }
+
+// ---- the rest of sync/atomic's surface (so that any use of it in goat's code builds and is scheduled) ----
+
+func (x *Pointer[T]) Swap(p *T) *T {
+	vsched.YieldSkip("atomic", 1)
+	vsched.AtomicSync(unsafe.Pointer(x))
+	o := x.p
+	x.p = p
+	return o
+}
+func (x *Pointer[T]) CompareAndSwap(o, n *T) bool {
+	vsched.YieldSkip("atomic", 1)
+	vsched.AtomicSync(unsafe.Pointer(x))
+	if x.p == o {
+		x.p = n
+		return true
+	}
+	return false
+}
+
+func (x *Value) Swap(n any) any {
+	vsched.YieldSkip("atomic", 1)
+	vsched.AtomicSync(unsafe.Pointer(x))
+	o := x.v
+	x.v = n
+	return o
+}
+func (x *Value) CompareAndSwap(o, n any) bool {
+	vsched.YieldSkip("atomic", 1)
+	vsched.AtomicSync(unsafe.Pointer(x))
+	if x.v == o {
+		x.v = n
+		return true
+	}
+	return false
+}
+
+func (x *Uint64) Swap(n uint64) uint64 {
+	vsched.YieldSkip("atomic", 1)
+	vsched.AtomicSync(unsafe.Pointer(x))
+	o := x.v
+	x.v = n
+	return o
+}
+func (x *Uint64) CompareAndSwap(o, n uint64) bool {
+	vsched.YieldSkip("atomic", 1)
+	vsched.AtomicSync(unsafe.Pointer(x))
+	if x.v == o {
+		x.v = n
+		return true
+	}
+	return false
+}
+func (x *Int32) Swap(n int32) int32 {
+	vsched.YieldSkip("atomic", 1)
+	vsched.AtomicSync(unsafe.Pointer(x))
+	o := x.v
+	x.v = n
+	return o
+}
+func (x *Int32) CompareAndSwap(o, n int32) bool {
+	vsched.YieldSkip("atomic", 1)
+	vsched.AtomicSync(unsafe.Pointer(x))
+	if x.v == o {
+		x.v = n
+		return true
+	}
+	return false
+}
+func (x *Uint32) Swap(n uint32) uint32 {
+	vsched.YieldSkip("atomic", 1)
+	vsched.AtomicSync(unsafe.Pointer(x))
+	o := x.v
+	x.v = n
+	return o
+}
+func (x *Uint32) CompareAndSwap(o, n uint32) bool {
+	vsched.YieldSkip("atomic", 1)
+	vsched.AtomicSync(unsafe.Pointer(x))
+	if x.v == o {
+		x.v = n
+		return true
+	}
+	return false
+}
+
+func SwapUint64(p *uint64, n uint64) uint64 {
+	vsched.YieldSkip("atomic", 1)
+	vsched.AtomicSync(unsafe.Pointer(p))
+	o := *p
+	*p = n
+	return o
+}
+func SwapInt64(p *int64, n int64) int64 {
+	vsched.YieldSkip("atomic", 1)
+	vsched.AtomicSync(unsafe.Pointer(p))
+	o := *p
+	*p = n
+	return o
+}
+func SwapUint32(p *uint32, n uint32) uint32 {
+	vsched.YieldSkip("atomic", 1)
+	vsched.AtomicSync(unsafe.Pointer(p))
+	o := *p
+	*p = n
+	return o
+}
+func SwapInt32(p *int32, n int32) int32 {
+	vsched.YieldSkip("atomic", 1)
+	vsched.AtomicSync(unsafe.Pointer(p))
+	o := *p
+	*p = n
+	return o
+}
+func LoadPointer(p *unsafe.Pointer) unsafe.Pointer {
+	vsched.YieldSkip("atomic", 1)
+	vsched.AtomicSync(unsafe.Pointer(p))
+	return *p
+}
+func StorePointer(p *unsafe.Pointer, v unsafe.Pointer) {
+	vsched.YieldSkip("atomic", 1)
+	vsched.AtomicSync(unsafe.Pointer(p))
+	*p = v
+}
